@@ -169,7 +169,7 @@ def get_oil(substance, q_oil, gor, ca=[], fp_type=1):
         mass_frac = new_mf
         
         # Update the binary interaction coefficients
-        if delta_groups == None:
+        if delta_groups is None:
             oil = dbm.FluidMixture(composition, user_data=user_data)
             delta = pedersen(oil.M, composition)
         else:
@@ -179,7 +179,7 @@ def get_oil(substance, q_oil, gor, ca=[], fp_type=1):
                     air_groups[i,12] = 1.
                 if ca[i] == 'carbon_dioxide':
                     air_groups[i,11] = 1.
-            delta_groups = np.vstack((delta_group, air_groups))
+            delta_groups = np.vstack((delta_groups, air_groups))
     
     
     # Create a live oil mixture for this oil that has the given GOR
@@ -459,7 +459,7 @@ def mix_gas_for_gor(dead_composition, dead_mass_frac, user_data, delta,
     mf_oil[len(gas_mf):] = dead_mass_frac
     
     # Update the binary interaction coefficients
-    if delta_groups == None:
+    if delta_groups is None:
         oil = dbm.FluidMixture(composition, user_data=user_data)
         delta = pedersen(oil.M, composition)
     else:
